@@ -57,12 +57,29 @@ class C18(PropCheck):
     exhaustive = False
 
     def impl(self, line):
+        if line.startswith("rf "):
+            from harness.rfsession import run_line
+            return run_line(line)
         return impl_line(line)
 
     # ------------------------------------------------------------------ generators
     def cases(self, res, tier, rng):
         out = []
         thorough = tier == "thorough"
+        # --- on-air framing: a FakeBLE object over the simulated radio; after any history of the calls it permits, what
+        #     leaves the antenna is a raw 1 Mbps packet on the advertising access address, without hardware CRC or
+        #     Enhanced-ShockBurst framing, on one of the three advertising channels
+        from harness.props.c09 import ble_op
+        for _ in range(300 if thorough else 60):
+            ops = ["new a ble 0", "a enter"]
+            for _ in range(rng.randint(0, 10)):
+                op = ble_op(rng, "a")
+                if " set power " not in op and " set listen " not in op:
+                    ops.append(op)
+                if rng.random() < 0.3:
+                    ops.append(f"a send i:{hx(rnd_bytes(rng, rng.randint(1, 32)))} F 0 F")
+            ops.append(f"a send i:{hx(rnd_bytes(rng, 32))} F 0 F")
+            out.append(("rf 1 1 " + " ; ".join(ops), "on-air-framing"))
         # --- helper functions
         out += [(f"swap {n}", "swap-exhaustive") for n in range(0, 1024)]
         res.exhaustive_blocks.append("swap_bits over 0..1023")
@@ -156,6 +173,39 @@ class C18(PropCheck):
         return " ok " in (" " + io) or "sent=" in io or not io.startswith("exc=")
 
     # ------------------------------------------------------------------ judge
+    @staticmethod
+    def _judge_framing(line, io):
+        names, parts = line.split(" ; "), io.split(" ; ")
+        ble_chan = True     # the object's own channel choices are advertising channels unless the user set another
+        for k, (name, part) in enumerate(zip(names, parts)):
+            t = name.split()
+            if t[-3:-1] == ["set", "channel"] and part.startswith("ok"):
+                ble_chan = int(t[-1]) in BLE_FREQ
+            if "hop_channel" in name:
+                ble_chan = True
+            f = part.split(" ~ ")
+            if len(f) != 4 or f[3] == "[]":
+                continue
+            for rec in f[3][1:-1].split(","):
+                if not rec.startswith("0>"):
+                    continue
+                ch, rate, crc, esb, dpl, addr = rec[2:].split("/")[:6]
+                bad = None
+                if rate != "r0":
+                    bad = f"data rate code {rate[1:]} (BLE advertising is 1 Mbps)"
+                elif crc != "c0":
+                    bad = f"the radio appends its own {crc[1:]}-byte CRC (the BLE CRC24 is part of the payload)"
+                elif esb != "e0" or dpl != "d0":
+                    bad = "Enhanced-ShockBurst framing (auto-ack / dynamic payloads) is on"
+                elif addr != "71917d6b":
+                    bad = f"address {addr} (the advertising access address 0x8E89BED6 is 71917d6b on this radio)"
+                elif ble_chan and int(ch[2:]) not in BLE_FREQ:
+                    bad = f"RF channel {ch[2:]} is none of the advertising channels {BLE_FREQ}"
+                if bad:
+                    return Finding(line, f"op {k} `{' '.join(t[-6:])[:60]}`: the packet on the air is not a BLE advertisement: {bad}",
+                                   {"class": "on-air-framing", "op_index": k})
+        return None
+
     def judge(self, triples):
         """Spec-based: every payload handed to send() must be received by the bit-serial BLE
         receiver (driver op `specrecv`, Nrf.Spec.BleLL.bleReceive) on the channel of RF_CH as
@@ -165,6 +215,11 @@ class C18(PropCheck):
         finds = []
         spec_q = []  # (line, description, specrecv line, expected dict)
         for line, io, mo in triples:
+            if line.startswith("rf 1 1 new a ble 0"):
+                f = self._judge_framing(line, io)
+                if f:
+                    finds.append(f)
+                continue
             if not line.startswith("ble "):
                 f = self._judge_pure(line, io, mo)
                 if f:
